@@ -4,8 +4,10 @@ mod dump;
 mod gen;
 mod c01;
 mod c02;
+mod c04;
 mod c05;
 mod c06;
+mod c12;
 mod zipx;
 mod c17;
 mod c18;
@@ -18,8 +20,10 @@ fn main() {
     match args.cmd.as_str() {
         "c01" => c01::run(&args),
         "c02" => c02::run(&args),
+        "c04" => c04::run(&args),
         "c05" => c05::run(&args),
         "c06" => c06::run(&args),
+        "c12" => c12::run(&args),
         "c17" => c17::run(&args),
         "c18" => c18::run(&args),
         "c19" => c19::run(&args),
